@@ -927,6 +927,26 @@ func judgeWrite(res *opResult, op *Op, p *opParse, before, after dbState, reject
 		if pb != nil && filterOK && p.colsDoc {
 			readings, computable = updateReadings(def, t0, pb, pf, only)
 		}
+		if pb != nil && filterOK && computable && op.Columns != nil && !p.colsDoc {
+			// lenient: surrounding double quotes are stripped from the list and
+			// from its names (parsing.StripQuotes is applied by the handler)
+			var stripped []string
+			for _, v := range op.Columns {
+				var ns []string
+				for _, n := range strings.Split(strings.Trim(v, `"`), ",") {
+					ns = append(ns, strings.Trim(n, `"`))
+				}
+				stripped = append(stripped, strings.Join(ns, ","))
+			}
+			if names, ok := namesDocumented(def, stripped, false, p.rowids); ok {
+				set := map[string]bool{}
+				for _, n := range names {
+					set[n] = true
+				}
+				more, ok := updateReadings(def, t0, pb, pf, set)
+				readings, computable = append(readings, more...), computable && ok
+			}
+		}
 		if pb != nil && filterOK && computable && op.Columns != nil {
 			// lenient: a handler that ignores the columns parameter (the
 			// abstract update path does) still updates exactly the filtered
